@@ -120,10 +120,11 @@ Lemma P_core_clauses : forall c, P_core c = true ->
   /\ (count_events ev_sign_block (o_events (c_obs c)) <= 1)%nat
   /\ unblind_calls_ok c = true /\ submit_ok c = true /\ no_relay_no_submit_b c = true
   /\ degrades_ok c = true /\ other_slot_refused c = true /\ unready_silent c = true
-  /\ prepared_duty_own c = true.
+  /\ prepared_duty_own c = true
+  /\ first_block_submitted c = true.
 Proof.
   intros c H. unfold P_core in H. rewrite !andb_true_iff in H.
-  destruct H as (((((((((((H1 & H2) & H3) & H4) & H5) & H6) & H7) & H8) & H9) & H10) & H11) & H12).
+  destruct H as ((((((((((((H1 & H2) & H3) & H4) & H5) & H6) & H7) & H8) & H9) & H10) & H11) & H12) & H13).
   apply negb_true_iff in H1. apply Nat.leb_le in H5. repeat split; auto.
 Qed.
 
@@ -239,11 +240,76 @@ Lemma P_core_sound_prepared_duty_own : forall c,
   exists a, c_post_account c = Some a /\ provided_account c = Some a
             /\ e_sig_randao (c_env c) = Some (c_post_randao c).
 Proof.
-  intros c HP Hp Hok. destruct (P_core_clauses c HP) as (_ & _ & _ & _ & _ & _ & _ & _ & _ & _ & H).
+  intros c HP Hp Hok. destruct (P_core_clauses c HP) as (_ & _ & _ & _ & _ & _ & _ & _ & _ & _ & H & _).
   unfold prepared_duty_own in H. rewrite Hp, Hok in H. cbn [andb negb orb] in H.
   rewrite !andb_true_iff in H. destruct H as ((Hs & Ha) & Hr).
   apply (option_eqb_spec N.eqb N_eqb_spec) in Ha, Hr.
   destruct (c_post_account c) as [a|]; [|discriminate]. exists a. auto.
+Qed.
+
+
+(* the calls seen made, with the instant each returned and whether it brought a full block *)
+Lemma indexed_in : forall A (l : list A) i0 i x, In (i, x) (indexed i0 l) -> exists j, i = (i0 + j)%nat /\ nth_error l j = Some x.
+Proof.
+  intros A l; induction l as [|y l IH]; intros i0 i x H; cbn in H; [destruct H|].
+  destruct H as [H|H].
+  - injection H as <- <-. exists 0%nat. split; [lia|reflexivity].
+  - apply IH in H as (j & -> & Hj). exists (S j). split; [lia|exact Hj].
+Qed.
+
+Lemma indexed_nth : forall A (l : list A) i0 j x, nth_error l j = Some x -> In ((i0 + j)%nat, x) (indexed i0 l).
+Proof.
+  intros A l; induction l as [|y l IH]; intros i0 j x H; [destruct j; discriminate|].
+  destruct j as [|j]; cbn in *.
+  - injection H as ->. left. f_equal. lia.
+  - right. replace (i0 + S j)%nat with (S i0 + j)%nat by lia. apply IH; exact H.
+Qed.
+
+Lemma returned_calls_in : forall c f ok, In (f, ok) (returned_calls c) ->
+  exists i calls k st rq r,
+    nth_error (o_unblind (c_obs c)) i = Some calls /\ nth_error calls k = Some (st, rq)
+    /\ nth_error (e_relays (c_env c)) i = Some r
+    /\ f = call_returns (e_deadline (c_env c)) r k st /\ ok = is_ok (scripted r k).
+Proof.
+  intros c f ok H. unfold returned_calls in H. apply in_flat_map in H as ([i calls] & Hin & H).
+  apply indexed_in in Hin as (j & -> & Hn). cbn [Nat.add] in *.
+  destruct (nth_error (e_relays (c_env c)) j) as [r|] eqn:Hr; [|destruct H].
+  apply in_map_iff in H as ([k [st rq]] & Heq & Hin). apply indexed_in in Hin as (k' & -> & Hk).
+  cbn [fst snd Nat.add] in Heq. injection Heq as <- <-.
+  exists j, calls, k', st, rq, r. auto.
+Qed.
+
+Lemma returned_calls_nth : forall c i calls k st rq r,
+  nth_error (o_unblind (c_obs c)) i = Some calls -> nth_error calls k = Some (st, rq) ->
+  nth_error (e_relays (c_env c)) i = Some r ->
+  In (call_returns (e_deadline (c_env c)) r k st, is_ok (scripted r k)) (returned_calls c).
+Proof.
+  intros c i calls k st rq r Hc Hk Hr. unfold returned_calls. apply in_flat_map.
+  exists (i, calls). split; [exact (indexed_nth _ _ 0%nat i calls Hc)|]. rewrite Hr.
+  apply in_map_iff. exists (k, (st, rq)). split; [reflexivity|]. exact (indexed_nth _ _ 0%nat k _ Hk).
+Qed.
+
+Lemma call_returns_ok : forall D r k st, is_ok (scripted r k) = true -> call_returns D r k st = st + scripted_lat r k.
+Proof. intros D r k st H. unfold call_returns. destruct (scripted r k); try discriminate; reflexivity. Qed.
+
+(* a call that was seen made and whose scripted answer is a full block handed back before the end of
+   the context: something was seen submitted no later than that *)
+Lemma P_core_sound_first_block : forall c p fc i calls k st rq r,
+  P_core c = true ->
+  e_proposal (c_env c) = POk p -> p_blinded p = true -> full_container (p_version p) = Some fc ->
+  nth_error (o_unblind (c_obs c)) i = Some calls -> nth_error calls k = Some (st, rq) ->
+  nth_error (e_relays (c_env c)) i = Some r -> is_ok (scripted r k) = true ->
+  st + scripted_lat r k < e_deadline (c_env c) ->
+  exists t sp, o_submit (c_obs c) = Some (t, sp) /\ t <= st + scripted_lat r k.
+Proof.
+  intros c p fc i calls k st rq r HP Hp Hbl Hfc Hc Hk Hr Hok Hlt.
+  destruct (P_core_clauses c HP) as (_ & _ & _ & _ & _ & _ & _ & _ & _ & _ & _ & H).
+  unfold first_block_submitted, unblinds_to in H. rewrite Hp, Hbl, Hfc in H. cbn [is_some andb negb orb] in H.
+  rewrite forallb_forall in H. specialize (H _ (returned_calls_nth c i calls k st rq r Hc Hk Hr)).
+  cbv beta iota in H. rewrite (call_returns_ok _ _ _ _ Hok), Hok in H.
+  apply N.ltb_lt in Hlt. rewrite Hlt in H. cbn [negb orb] in H.
+  unfold submitted_by in H. destruct (o_submit (c_obs c)) as [[t sp]|]; [|discriminate].
+  exists t, sp. split; [reflexivity|]. apply N.leb_le; exact H.
 Qed.
 
 Lemma P_core_sound_no_panic : forall c, P_core c = true -> o_panic (c_obs c) = false.
@@ -261,22 +327,6 @@ Definition model_case (id : N) (cf : config) (e : env) (d : duty) (prep : bool) 
      c_post_account := d_account (duty_after cf e d prep); c_post_randao := d_randao (duty_after cf e d prep);
      c_cut := no_cuts; c_times := []; c_live := []; c_t0 := 0;
      c_obs := snd (run cf e d prep); c_ret := 0; c_sub_cut := false |}.
-
-Lemma indexed_in : forall A (l : list A) i0 i x, In (i, x) (indexed i0 l) -> exists j, i = (i0 + j)%nat /\ nth_error l j = Some x.
-Proof.
-  intros A l; induction l as [|y l IH]; intros i0 i x H; cbn in H; [destruct H|].
-  destruct H as [H|H].
-  - injection H as <- <-. exists 0%nat. split; [lia|reflexivity].
-  - apply IH in H as (j & -> & Hj). exists (S j). split; [lia|exact Hj].
-Qed.
-
-Lemma indexed_nth : forall A (l : list A) i0 j x, nth_error l j = Some x -> In ((i0 + j)%nat, x) (indexed i0 l).
-Proof.
-  intros A l; induction l as [|y l IH]; intros i0 j x H; [destruct j; discriminate|].
-  destruct j as [|j]; cbn in *.
-  - injection H as ->. left. f_equal. lia.
-  - right. replace (i0 + S j)%nat with (S i0 + j)%nat by lia. apply IH; exact H.
-Qed.
 
 Lemma run_parts : forall cf e d prep,
   fst (fst (run cf e d prep)) = (if prep then snd (fst (prepare cf e d)) else [])
@@ -463,10 +513,7 @@ Proof.
       (acct' & pr' & h' & sig' & code' & _ & _ & _ & _ & Hp' & Hbl' & Hb' & _ & Hsig' & Hcode' & Hrq & _).
     rewrite Hp in Hp'; injection Hp' as <-. rewrite Hb in Hb'; injection Hb' as <-.
     rewrite Hsig in Hsig'; injection Hsig' as <-. rewrite Hbl in *. rewrite Hcode in Hcode'; injection Hcode' as <-.
-    cbn [fst snd]. destruct Hrq as [-> | (-> & t & sp' & Hsub & Hlt)].
-    + apply orb_true_iff; left. apply ureq_eqb_spec; reflexivity.
-    + apply orb_true_iff; right. rewrite Hsub.
-      apply andb_true_iff; split; [apply N.ltb_lt; exact Hlt|]. apply ureq_eqb_spec. reflexivity.
+    cbn [fst snd]. subst rq. apply ureq_eqb_spec; reflexivity.
 Qed.
 
 (* the request built from a signed blinded bellatrix..deneb block has its one container, so an
@@ -634,9 +681,33 @@ Proof.
   cbn. rewrite !N.eqb_refl. reflexivity.
 Qed.
 
+(* every full block a relay of the model's run hands back in time is submitted by then *)
+Lemma clause_first_block : forall id cf e d prep, first_block_submitted (model_case id cf e d prep) = true.
+Proof.
+  intros id cf e d prep. set (c := model_case id cf e d prep).
+  assert (Hobs : c_obs c = propose cf e (run_duty cf e d prep)) by (unfold c, model_case; cbn [c_obs]; apply run_parts).
+  set (D := run_duty cf e d prep) in *.
+  unfold first_block_submitted.
+  destruct (unblinds_to c) eqn:Hu; [|reflexivity]. cbn [negb orb].
+  unfold unblinds_to in Hu. assert (He : c_env c = e) by reflexivity. rewrite He in *.
+  destruct (e_proposal e) as [|p] eqn:Hp; [discriminate|].
+  apply andb_true_iff in Hu as (Hbl & Hfc).
+  destruct (full_container (p_version p)) as [fc|] eqn:Efc; [|discriminate].
+  apply forallb_forall. intros [f ok] Hin.
+  apply returned_calls_in in Hin as (i & calls & k & st & rq & r & Hc & Hk & Hr & -> & ->).
+  rewrite He in *.
+  destruct (is_ok (scripted r k)) eqn:Hok; [|reflexivity]. cbn [negb orb].
+  rewrite (call_returns_ok _ _ _ _ Hok).
+  destruct (st + scripted_lat r k <? e_deadline e) eqn:Hlt; [|reflexivity]. cbn [negb orb].
+  destruct (scripted_eq r k) as (Hsc & Hlat). rewrite Hsc in Hok. rewrite Hlat in *.
+  rewrite Hobs in Hc. apply N.ltb_lt in Hlt.
+  destruct (full_block_in_time_submitted cf e D p i r calls k st rq fc Hp Efc Hr Hc Hk Hok Hlt) as (t & sp & Hsub & Hle).
+  unfold submitted_by. rewrite Hobs, Hsub. apply N.leb_le. exact Hle.
+Qed.
+
 Theorem model_satisfies_P_core : forall id cf e d prep, P_core (model_case id cf e d prep) = true.
 Proof.
-  intros id cf e d prep. unfold P_core. rewrite (clause_prepared_own id cf e d prep).
+  intros id cf e d prep. unfold P_core. rewrite (clause_prepared_own id cf e d prep), (clause_first_block id cf e d prep).
   destruct (clause_prep_events id cf e d prep) as (H2 & H3).
   destruct (clause_block_events id cf e d prep) as (H4 & H5).
   destruct (clause_submit id cf e d prep) as (H7 & H8).
